@@ -152,6 +152,71 @@ def name_probe():
     return bad
 
 
+def stampede_probe():
+    """memoize_stampede with early recomputation forced (huge beta, a function that takes one tick of
+    the controlled clock): the wrapper still returns what the function returns, the recomputation
+    runs the function exactly once more, the "recomputation in progress" marker neither starts a
+    second recomputation nor answers for ANY other call, whatever its arguments"""
+    import threading
+    import diskcache
+    from impl import Env
+    env = Env.get()
+    root = os.environ.get('VERIF_SCRATCH') or tempfile.gettempdir()
+    bad = []
+    was = env.rec.enabled
+    env.rec.enabled = False
+    for kind in ('cache', 'fanout'):
+        d = tempfile.mkdtemp(prefix='stampede-', dir=root)
+        try:
+            c = diskcache.Cache(d) if kind == 'cache' else diskcache.FanoutCache(d, shards=2)
+            env.clock.t = 1000
+            ran = []
+
+            def f(*a, **k):
+                ran.append((a, tuple(sorted(k.items()))))
+                env.clock.t += 1          # the function takes one tick: delta = 1
+                return ('r', a, tuple(sorted(k.items())))
+            w = diskcache.memoize_stampede(c, 60, name='f', beta=1e12)(f)
+
+            def settle():
+                for t in threading.enumerate():
+                    if t is not threading.current_thread() and t.daemon and t.name.startswith('Thread-'):
+                        t.join(5)
+            r1 = w(1)
+            n1 = len(ran)
+            r2 = w(1)                     # a hit that starts the early recomputation
+            settle()
+            n2 = len(ran)
+            env.clock.t = 1001            # marker stored at 1001 with expire 1: alive until 1002
+            r3 = w(1)                     # marker alive: no second recomputation
+            settle()
+            n3 = len(ran)
+            if (r1, r2, r3) != (('r', (1,), ()),) * 3:
+                bad.append('%s: memoize_stampede f(1) returned %r, %r, %r; the function returns %r' % (kind, r1, r2, r3, ('r', (1,), ())))
+            if (n1, n2) != (1, 2):
+                bad.append('%s: memoize_stampede ran the function %d time(s) for the first call and %d in all after one early recomputation (1 and 2 expected)' % (kind, n1, n2))
+            if n3 != n2:
+                bad.append('%s: memoize_stampede started a second recomputation while the first one\'s marker was alive' % kind)
+            # calls with other arguments while the marker is alive: every one is a plain miss answered by the function
+            for a, k in (((1, None), {}), ((1, 0), {}), ((1,), {'x': None}), ((1, ()), {}), ((None,), {}), ((1, 1), {})):
+                try:
+                    got = w(*a, **k)
+                except Exception as e:  # noqa
+                    bad.append('%s: memoize_stampede f%r %r raised %s: %s while a recomputation of f(1) was marked' % (kind, a, k, type(e).__name__, str(e)[:80]))
+                    continue
+                want = ('r', a, tuple(sorted(k.items())))
+                if got != want:
+                    bad.append('%s: memoize_stampede f%r %r returned %r while a recomputation of f(1) was marked; the function returns %r' % (kind, a, k, got, want))
+            settle()
+            c.close()
+        except Exception as e:  # noqa
+            bad.append('%s: stampede probe raised %s: %s' % (kind, type(e).__name__, str(e)[:100]))
+        finally:
+            shutil.rmtree(d, ignore_errors=True)
+    env.rec.enabled = was
+    return bad
+
+
 def run(tier, seed, rng, known, replay):
     from diskcache.core import args_to_key
     import diskcache
@@ -252,10 +317,11 @@ def run(tier, seed, rng, known, replay):
             wmeta.append(None)
             now = 1000
             results = {}
-            for j in range(rng.randint(3, 8)):
+            pool = rng.sample(small, 3)
+            for j in range(rng.randint(4, 9)):
                 now += rng.choice([0, 1, 3, 6])
                 env.clock.t = now
-                sig = rng.choice(small)
+                sig = rng.choice(pool)
                 a, kw = real_call_args(sig)
                 ran.clear()
                 r = wrapped(*a, **kw)
@@ -292,6 +358,8 @@ def run(tier, seed, rng, known, replay):
                 violations.append({'replay': {'property': 'C16', 'kind': 'correspondence', 'line': l, 'impl': e, 'model': g, 'meta': repr(meta),
                                               'model_part': 'DC.Memo.call'}, 'found_input': False,
                                    'what': 'memoize wrapper differs from the model at %s: impl %s model %s (%r)' % (l[:90], e, g, meta)})
+    for v in stampede_probe()[:2]:
+        violations.append({'replay': {'property': 'C16', 'kind': 'stampede-probe', 'acceptor': v}, 'found_input': True, 'what': v})
     for v in name_probe()[:2]:
         violations.append({'replay': {'property': 'C16', 'kind': 'name-probe', 'acceptor': v}, 'found_input': True, 'what': v})
     return {
